@@ -107,6 +107,9 @@ type mvol struct {
 	preStamp int64
 	written  []wrec
 	maxKey   uint64
+	// extra signature fields for refuting observations on this volume's pre-existing
+	// keys (set by the position-relative report cases)
+	tags map[string]string
 }
 
 func (v *mvol) write(key uint64) {
@@ -242,8 +245,12 @@ func (h *history) check() (overlaps, prehits int) {
 				if i < len(pre) && pre[i] < cur.end() {
 					prehits++
 					hm := cur.Issuer.hmaxBefore(cur.CallT)
-					h.report(lib.Sig{"class": "key-already-written", "origin": "preexisting", "kind": "preexisting",
-						"rel": relOf(pre[i], hm), "cross_instance": "n/a", "conflict_is_reported_value": h.wasReported(pre[i], cur.CallT)},
+					sig := lib.Sig{"class": "key-already-written", "origin": "preexisting", "kind": "preexisting",
+						"rel": relOf(pre[i], hm), "cross_instance": "n/a", "conflict_is_reported_value": h.wasReported(pre[i], cur.CallT)}
+					for k, tv := range v.tags {
+						sig[k] = tv
+					}
+					h.report(sig,
 						map[string]interface{}{"msg": "assignment contains a key that was already in the target volume",
 							"assignment": asgJSON(cur), "existing_key": pre[i], "reported_max_before_call": hm})
 				}
@@ -972,6 +979,218 @@ func runMasterScripted(r *lib.Run, seq string, variant string) {
 	}
 }
 
+// ---------------------------------------------------------------------------
+// position-relative reports: a heartbeat whose largest key in use lies exactly at,
+// one below, one above or far above the key the sequencer would hand out next.
+// Such keys exist legitimately: written by clients of a previous leader / before a
+// restart, or stored under a client-chosen file id. Single-threaded, deterministic.
+
+var relDeltas = []struct {
+	name  string
+	delta int64
+}{{"next-key-1", -1}, {"next-key", 0}, {"next-key+1", 1}, {"far-above", 1000003}}
+
+func relTags(seq sequence.Sequencer, v uint64, pos string) map[string]string {
+	tags := map[string]string{"case": "relative-report", "report_pos": pos}
+	if es, ok := seq.(*sequence.EtcdSequencer); ok {
+		// the reported key lies inside the batch this instance already reserved from etcd
+		tags["inside_local_batch"] = fmt.Sprint(v >= es.Peek() && v < es.GetMax())
+	}
+	return tags
+}
+
+// runSeqRelative: sequencer level. Phases: fresh instance; after some assignments;
+// after a restart (new generation told the largest key written so far).
+func runSeqRelative(r *lib.Run, typ string) {
+	desc := map[string]interface{}{"part": "sequencer-relative", "type": typ}
+	r.Case(desc)
+	h := newHistory(r, "sequencer", typ, desc)
+	var etcd *lib.M13FakeEtcd
+	dir := ""
+	if typ == "etcd" {
+		e, err := lib.M13NewFakeEtcd()
+		r.Must(err, "fake etcd")
+		etcd = e
+		defer e.Close()
+		dir = r.SubDir("relmeta")
+	}
+	gen := 0
+	mk := func() (sequence.Sequencer, *issuer) {
+		gen++
+		is := &issuer{id: gen, name: fmt.Sprintf("rel.gen%d", gen)}
+		switch typ {
+		case "etcd":
+			sq, err := sequence.NewEtcdSequencer(etcd.URL(), dir)
+			r.Must(err, "NewEtcdSequencer")
+			return sq, is
+		case "snowflake":
+			time.Sleep(3 * time.Millisecond)
+			sq, err := sequence.NewSnowflakeSequencer("127.0.0.1:9333")
+			r.Must(err, "NewSnowflakeSequencer")
+			return sq, is
+		}
+		return sequence.NewMemorySequencer(), is
+	}
+	var volN uint32
+	var maxW uint64
+	assign := func(seq sequence.Sequencer, is *issuer, vid uint32, count uint64) {
+		a := &asg{Issuer: is, Vol: vid, Count: count}
+		a.CallT = tick()
+		a.Start = seq.NextFileId(count)
+		a.RetT = tick()
+		h.record(a)
+		h.vol(vid).write(a.Start)
+		if a.Start > maxW {
+			maxW = a.Start
+		}
+		r.Count("relative.seq_assign", 1)
+	}
+	report := func(seq sequence.Sequencer, is *issuer, v uint64) {
+		seq.SetMax(v)
+		is.logSetMax(v)
+		h.noteReported(v)
+	}
+	cases := func(seq sequence.Sequencer, is *issuer, phase string) {
+		for _, d := range relDeltas {
+			p := seq.Peek()
+			if int64(p)+d.delta <= 0 {
+				continue
+			}
+			v := uint64(int64(p) + d.delta)
+			volN++
+			mv := h.vol(volN)
+			mv.pre, mv.maxKey, mv.tags = []uint64{v}, v, relTags(seq, v, d.name)
+			mv.preStamp = tick()
+			if v > maxW {
+				maxW = v
+			}
+			report(seq, is, v) // the server holding this volume reports its largest key
+			assign(seq, is, volN, 1)
+			assign(seq, is, volN, 5)
+			r.Count("relative.seq_cases", 1)
+			r.Nontrivial(fmt.Sprintf("seq-relative/%s/%s/%s", typ, phase, d.name))
+		}
+	}
+	seq, is := mk()
+	cases(seq, is, "fresh")
+	volN++
+	base := volN
+	for _, c := range []uint64{1, 5, 100} {
+		assign(seq, is, base, c)
+	}
+	cases(seq, is, "after-assignments")
+	seq, is = mk() // restart / leader change: told the largest key written, then the relative reports
+	report(seq, is, maxW)
+	cases(seq, is, "after-restart")
+	h.check()
+}
+
+// runMasterRelative: the same through the real SendHeartbeat/Assign handlers. Each
+// case is a new volume (own collection, so that Assign must pick it) holding one
+// key at the chosen position, carried by the next full heartbeat of its server.
+func runMasterRelative(r *lib.Run, seq string) {
+	s := mSched{Index: -2, Seq: seq, Masters: 2, Servers: 1}
+	desc := map[string]interface{}{"part": "master-relative", "seq": seq}
+	r.Case(desc)
+	w := &mWorld{r: r, s: s, group: lib.M13NewRaftGroup()}
+	w.h = newHistory(r, "master", seq, desc)
+	if seq == "etcd" {
+		e, err := lib.M13NewFakeEtcd()
+		r.Must(err, "fake etcd")
+		w.etcd = e
+		defer e.Close()
+	}
+	for i := 0; i < 2; i++ {
+		name := fmt.Sprintf("127.0.0.1:%d", 9333+i)
+		dir := r.SubDir(fmt.Sprintf("rm%d", i))
+		m := lib.M13NewMaster(w.group, name, 9333+i, dir)
+		switch seq {
+		case "etcd":
+			sq, err := sequence.NewEtcdSequencer(w.etcd.URL(), dir)
+			r.Must(err, "NewEtcdSequencer")
+			m.MS.Topo.Sequence = sq
+		case "snowflake":
+			sq, err := sequence.NewSnowflakeSequencer(name)
+			r.Must(err, "NewSnowflakeSequencer")
+			m.MS.Topo.Sequence = sq
+		default:
+			m.MS.Topo.Sequence = sequence.NewMemorySequencer()
+		}
+		w.masters = append(w.masters, m)
+		w.iss = append(w.iss, &issuer{id: i, name: name})
+	}
+	st := getStubs(r, 0, 1)[0]
+	vs := &vserver{stub: st, vols: make(map[uint32]*srvVol), master: -1, rack: "r1", knows: w.group.LeaderName()}
+	w.servers = []*vserver{vs}
+	assign := func(mi int, coll string, count uint64) bool {
+		callT := tick()
+		resp, err := safeAssign(w, mi, &master_pb.AssignRequest{Count: count, Replication: "000", Collection: coll})
+		retT := tick()
+		if err != nil || resp == nil {
+			w.assignErr++
+			return false
+		}
+		fid, perr := needle.ParseFileIdFromString(resp.Fid)
+		if perr != nil {
+			return false
+		}
+		w.assignOK++
+		a := &asg{Issuer: w.iss[mi], Vol: uint32(fid.VolumeId), Start: uint64(fid.Key), Count: resp.Count, CallT: callT, RetT: retT}
+		w.h.record(a)
+		w.h.vol(a.Vol).write(a.Start)
+		return true
+	}
+	nextVid := uint32(20)
+	cases := func(mi int, phase string) {
+		sq := w.masters[mi].MS.Topo.Sequence
+		for _, d := range relDeltas {
+			p := sq.Peek()
+			if int64(p)+d.delta <= 0 {
+				continue
+			}
+			v := uint64(int64(p) + d.delta)
+			nextVid++
+			coll := fmt.Sprintf("rel%d", nextVid)
+			mv := w.h.vol(nextVid)
+			mv.pre, mv.maxKey, mv.tags = []uint64{v}, v, relTags(sq, v, d.name)
+			mv.preStamp = tick()
+			vs.mu.Lock()
+			vs.vols[nextVid] = &srvVol{id: nextVid, collection: coll, replication: "000", content: mv}
+			vs.mu.Unlock()
+			w.beat(vs) // full heartbeat: MaxFileKey = v (every other key on this server is smaller), then the volume is registered
+			ok1 := assign(mi, coll, 1)
+			ok2 := assign(mi, coll, 5)
+			if ok1 && ok2 {
+				r.Count("relative.master_cases", 1)
+				r.Nontrivial(fmt.Sprintf("master-relative/%s/%s/%s", seq, phase, d.name))
+			}
+		}
+	}
+	// a volume for ordinary traffic
+	base := w.h.vol(3)
+	vs.vols[3] = &srvVol{id: 3, collection: "", replication: "000", content: base}
+	cases(0, "fresh-master") // the very first heartbeat already carries the first case's volume
+	for _, c := range []uint64{1, 5, 100} {
+		assign(0, "", c)
+	}
+	w.beat(vs)
+	cases(0, "after-assignments")
+	w.group.SetLeader(w.masters[1].Name)
+	r.Count("master.leader_moves", 1)
+	w.beat(vs) // learns the new leader
+	w.beat(vs) // migrates: the new leader is told the largest key in use
+	cases(1, "after-leader-move")
+	if vs.stream != nil {
+		vs.stream.Close()
+	}
+	w.h.check()
+	r.Count("master.assign_ok", w.assignOK)
+	r.Count("relative.master_assign_ok", w.assignOK)
+	if w.assignOK < 12 {
+		r.Inconclusive(fmt.Sprintf("master-relative %s: only %d assignments succeeded", seq, w.assignOK))
+	}
+}
+
 func runMasterHistory(r *lib.Run, s mSched) {
 	r.Case(map[string]interface{}{"part": "master", "schedule": s})
 	rng := rand.New(rand.NewSource(s.RngSeed))
@@ -1359,6 +1578,8 @@ func main() {
 		for _, variant := range []string{"written", "inflight"} {
 			runMasterScripted(r, seq, variant)
 		}
+		runSeqRelative(r, seq)
+		runMasterRelative(r, seq)
 	}
 	r.Note("wall_ms.master", time.Since(tm).Milliseconds())
 	grng := r.SubRng("c13-grow")
@@ -1392,6 +1613,22 @@ func replay(r *lib.Run, part string, path string) error {
 	}
 	if err := json.Unmarshal(b, &raw); err != nil {
 		return err
+	}
+	if part == "sequencer-relative" {
+		var t struct {
+			Detail struct {
+				History struct {
+					Type string `json:"type"`
+				} `json:"history"`
+			} `json:"detail"`
+		}
+		_ = json.Unmarshal(b, &t)
+		runSeqRelative(r, t.Detail.History.Type)
+		return nil
+	}
+	if part == "master-relative" {
+		runMasterRelative(r, raw.Detail.History.Seq)
+		return nil
 	}
 	if part == "master-scripted" {
 		runMasterScripted(r, raw.Detail.History.Seq, raw.Detail.History.Variant)
